@@ -301,8 +301,10 @@ double Interpolation::Local_Minimum(double x_1, double x_2)
 		return std::min(f_left, f_right);
 	else
 	{
-		// Find the smallest value of function_values between i_1+1 and i_2 (inclusive).
-		double min_entry = *std::min_element(function_values.begin() + i_1 + 1, function_values.begin() + i_2 + 1);
+		// Find the smallest value of the curve at the knots i_1+1,...,i_2 (scaled by the prefactor, whose sign decides which tabulated value that is).
+		auto first		 = function_values.begin() + i_1 + 1;
+		auto last		 = function_values.begin() + i_2 + 1;
+		double min_entry = (prefactor >= 0.0) ? prefactor * (*std::min_element(first, last)) : prefactor * (*std::max_element(first, last));
 		return std::min({f_left, min_entry, f_right});
 	}
 }
@@ -318,20 +320,28 @@ double Interpolation::Local_Maximum(double x_1, double x_2)
 		return std::max(f_left, f_right);
 	else
 	{
-		// Find the largest value of function_values between i_1+1 and i_2 (inclusive).
-		double max_entry = *std::max_element(function_values.begin() + i_1 + 1, function_values.begin() + i_2 + 1);
+		// Find the largest value of the curve at the knots i_1+1,...,i_2 (scaled by the prefactor, whose sign decides which tabulated value that is).
+		auto first		 = function_values.begin() + i_1 + 1;
+		auto last		 = function_values.begin() + i_2 + 1;
+		double max_entry = (prefactor >= 0.0) ? prefactor * (*std::max_element(first, last)) : prefactor * (*std::min_element(first, last));
 		return std::max({f_left, max_entry, f_right});
 	}
 }
 
 double Interpolation::Global_Minimum()
 {
-	return *std::min_element(function_values.begin(), function_values.end());
+	if(prefactor >= 0.0)
+		return prefactor * (*std::min_element(function_values.begin(), function_values.end()));
+	else
+		return prefactor * (*std::max_element(function_values.begin(), function_values.end()));
 }
 
 double Interpolation::Global_Maximum()
 {
-	return *std::max_element(function_values.begin(), function_values.end());
+	if(prefactor >= 0.0)
+		return prefactor * (*std::max_element(function_values.begin(), function_values.end()));
+	else
+		return prefactor * (*std::min_element(function_values.begin(), function_values.end()));
 }
 
 void Interpolation::Save_Function(std::string filename, unsigned int points)
@@ -452,17 +462,29 @@ void Interpolation_2D::Multiply(double factor)
 // Function properties
 double Interpolation_2D::Global_Minimum()
 {
-	std::vector<double> row_minima;
+	std::vector<double> row_minima, row_maxima;
 	for(auto& row : function_values)
+	{
 		row_minima.push_back(*std::min_element(row.begin(), row.end()));
-	return *std::min_element(row_minima.begin(), row_minima.end());
+		row_maxima.push_back(*std::max_element(row.begin(), row.end()));
+	}
+	if(prefactor >= 0.0)
+		return prefactor * (*std::min_element(row_minima.begin(), row_minima.end()));
+	else
+		return prefactor * (*std::max_element(row_maxima.begin(), row_maxima.end()));
 }
 double Interpolation_2D::Global_Maximum()
 {
-	std::vector<double> row_maxima;
+	std::vector<double> row_minima, row_maxima;
 	for(auto& row : function_values)
+	{
+		row_minima.push_back(*std::min_element(row.begin(), row.end()));
 		row_maxima.push_back(*std::max_element(row.begin(), row.end()));
-	return *std::max_element(row_maxima.begin(), row_maxima.end());
+	}
+	if(prefactor >= 0.0)
+		return prefactor * (*std::max_element(row_maxima.begin(), row_maxima.end()));
+	else
+		return prefactor * (*std::min_element(row_minima.begin(), row_minima.end()));
 }
 
 void Interpolation_2D::Save_Function(std::string filename, unsigned int x_points, unsigned int y_points)
